@@ -441,6 +441,15 @@ def run(tier="quick"):
         raise
     if any(o.status == E.UNDECIDED for o in obs):
         obs.append(_standin())
+    # the optimizer's obligations also serve C01 (a wrong rewrite desynchronises the stack / mistypes an operand)
+    # and, for the constant folds and the 3-line window they live in, C15 / C16 (literal operands behave like variables)
+    for o in obs:
+        if o.id.startswith(("C05.opt.", "C05.cli.")) and "C01" not in o.props:
+            o.props.append("C01")
+        if (o.id.startswith("C05.fold.") or o.id in ("C05.opt.peephole3.window", "C05.cli.operand_forms.sampled")):
+            for extra in ("C15", "C16"):
+                if extra not in o.props:
+                    o.props.append(extra)
     return obs, info
 
 
@@ -457,10 +466,16 @@ def replay(ob):
         return None, dict(note="no disagreement among %d instances" % n)
     ok, info = _core_replay(ob)
     if ok is None:
-        from units import clidiff
+        from units import clidiff, optdiff
         bad, n = clidiff.differential()
         if bad:
             ob.cex = dict(expression=bad['expression'])
             info = dict(info or {}, cli_differential=bad)
             return True, info
+        bad, n = optdiff.differential()
+        if bad:
+            ob.cex = dict(program=bad['program'])
+            info = dict(info or {}, optimizer_on_vs_off=bad)
+            return True, info
+        info = dict(info or {}, note="no disagreement: operand-form differential and %d programs optimized vs unoptimized" % n)
     return ok, info
